@@ -36,10 +36,25 @@ def exec_module(self, module):
 
 
 _be.SourceFileLoader.exec_module = exec_module
+# each entry is a module name, optionally prefixed with the FORM of the import statement the client uses:
+#   "m"      importlib.import_module("chartparse.m")
+#   "d:m"    import chartparse.m             (dotted statement)
+#   "f:m"    from chartparse import m        (from-package statement; the name must denote the submodule)
+#   "a:m"    import chartparse.m as m
+forms = [(x.split(":", 1) if ":" in x else ["", x]) for x in order]
+order = [m for _, m in forms]
 ok, error = True, ""
-for m in order:
+for form, m in forms:
     try:
-        importlib.import_module(PKG + "." + m)
+        if form == "":
+            importlib.import_module(PKG + "." + m)
+        else:
+            ns = {}
+            stmt = {"d": f"import {PKG}.{m}", "f": f"from {PKG} import {m}", "a": f"import {PKG}.{m} as {m}"}[form]
+            exec(stmt, ns)
+            got = ns[m] if form in ("f", "a") else getattr(ns[PKG], m)
+            if got is not sys.modules.get(PKG + "." + m) or not isinstance(got, types.ModuleType):
+                raise ImportError(f"'{stmt}' bound {getattr(got, '__name__', type(got).__name__)!r}, not the submodule {PKG}.{m}")
     except BaseException as e:  # noqa: BLE001
         ok, error = False, f"{m}: {type(e).__name__}: {e}"[:300]
         break
@@ -62,4 +77,4 @@ if ok:
             table.append([m, name, kind])
     parts = sorted(sorted(g) for g in groups.values())
     table = {"names": table, "identity_partition": parts}
-print(json.dumps({"order": order, "events": events, "ok": ok, "error": error, "table": table}))
+print(json.dumps({"order": order, "forms": [f for f, _ in forms], "events": events, "ok": ok, "error": error, "table": table}))
